@@ -27,8 +27,8 @@ PROPS = {
     'C05': dict(units=['state_analyzer', 'terms', 'rules', 'glue'],
                 claim="solve_conflict decides reduce iff rule precedence > term precedence or equal with the rule left-associative (from the statement); the rule's last term is its right-most terminal; rule precedence = explicit [n] if non-zero else the last term's else 0; rule associativity = the last term's",
                 assumptions=['conflict detection inside transitions() (which entry gets the verdict, has_sr_conflict) is not under contract', L_KNUTH, GLUE]),
-    'C07': dict(units=['dfa', 'driver', 'buffers'], static=[SF.buffers_static],
-                claim='absence of undefined behaviour on the failure paths the property anchors (lexical error in get_current_term, non-matching regex::expr::match): the exact condition under which a constant evaluator must accept the evaluation; the parse path is one lowered text for all buffer kinds (R7)',
+    'C07': dict(units=['dfa', 'driver', 'buffers', 'stdex'], all=['driver', 'stdex'], static=[SF.buffers_static],
+                claim='absence of undefined behaviour (every CBMC safety check and every woven logical bound) on the whole parse path including the failure and recovery paths (lexical error in get_current_term, non-matching regex::expr::match, popping during recovery): the exact condition under which a constant evaluator must accept the evaluation; the parse path is one lowered text for all buffer kinds (R7)',
                 assumptions=["that g++'s and clang's constant evaluators and the compiled code compute the same function of a UB-free evaluation is the language standard (trusted)",
                              'buffer adaptors: cstring_buffer::iterator operators, begin/end and get_view of the three buffers are under contract (unit buffers) with std::string / std::string_view members read as (pointer, length) pairs and their iterators as pointers (standard-library meaning, trusted); the cstring_buffer constructor (pack-expanded copy_array) is a pattern fact only', LEXER]),
     'C11': dict(units=['diag', 'state_analyzer', 'state_analyzer@small', 'glue'],
@@ -51,7 +51,7 @@ PROPS = {
     'C08': dict(units=['driver', 'state_analyzer', 'glue'],
                 claim='step relation of the driver loop written from the documented recovery algorithm: enter (one message, nothing discarded), pop (one state and its value), shift of the error symbol, input discarding, exits',
                 assumptions=[L_PATH, L_IDS, TABLE_WF, LEXER]),
-    'C09': dict(units=['driver', 'terms', 'values', 'glue'],
+    'C09': dict(units=['driver', 'terms', 'values', 'glue', 'dfa'],
                 claim='without error rules and not verbose: no event before the failure, exactly one (Unexpected character | Syntax error) on failure with position and payload, none on success',
                 assumptions=[L_PATH, TABLE_WF, LEXER, 'that the term reported is the first that cannot continue a valid prefix is the immediate-error-detection property of canonical LR(1) tables (C01), not mechanised']),
     'C10': dict(units=['driver', 'values'],
